@@ -66,8 +66,16 @@ def _env():
         out.append(pb())
         return out
 
+    @jaxtyped(typechecker=typeguard.typechecked)
+    def f2(x: F["a"], y: F["a"]):
+        return pb()
+
+    @jaxtyped(typechecker=typeguard.typechecked)
+    def badret(x: F["a"], k: int) -> F["a"]:
+        return Duck((k,))
+
     AA = Float[Duck, "a a"]
-    return dict(Duck=Duck, F=F, PT=PT, PU=PU, PA=PA, c=c, pb=pb, f=f, outer=outer, jaxtyped=jaxtyped, ctx_in_call=ctx_in_call, AA=AA)
+    return dict(f2=f2, badret=badret, Duck=Duck, F=F, PT=PT, PU=PU, PA=PA, c=c, pb=pb, f=f, outer=outer, jaxtyped=jaxtyped, ctx_in_call=ctx_in_call, AA=AA)
 
 
 _ENV = None
@@ -186,6 +194,32 @@ def workload(name):
 
         return body
 
+    def failing_calls(k):
+        """ill-typed decorated calls (parameter stage, return stage) around well-typed ones: the
+        error REPORTS are built while the other thread runs; transcript = exception class + the
+        bindings the message lists."""
+        from .. import adapter
+
+        def attempt(fn, *a):
+            try:
+                return fn(*a)
+            except Exception as ex:  # noqa: BLE001
+                axes, structs = adapter.parse_bindings(str(ex))
+                return [type(ex).__name__, sorted(axes.items()), sorted(structs)]
+
+        def body():
+            out = [attempt(e["f2"], Duck((k,)), Duck((k + 1,)))]
+            out.append(attempt(e["f2"], Duck((k,)), Duck((k,))))
+            out.append(attempt(e["badret"], Duck((k,)), k + 1))
+            out.append(attempt(e["badret"], Duck((k,)), k).shape)
+            out.append(attempt(e["f2"], Duck((k + 1,)), Duck((k,))))
+            out.append(pb())
+            return out
+
+        return body
+
+    if name == "W9":  # both threads make ill-typed decorated calls: error reporting overlaps with checking
+        return [failing_calls(2), failing_calls(5)]
     if name == "W7":
         # thread bodies run inside COPIES of the starting thread's contextvars context
         # (asyncio.to_thread, Thread(context=...), copy_context().run): a copied context shares
@@ -285,9 +319,9 @@ def run(ctx):
     from .. import sched
 
     if ctx.quick:
-        plan = [("W1", 1, "lines"), ("W2", 1, "lines"), ("W3", 1, "storage"), ("W4", 1, "lines"), ("W5", 2, "storage"), ("W6", 1, "lines"), ("W7", 1, "storage"), ("W8", 1, "lines")]
+        plan = [("W1", 1, "lines"), ("W2", 1, "lines"), ("W3", 1, "storage"), ("W4", 1, "lines"), ("W5", 2, "storage"), ("W6", 1, "lines"), ("W7", 1, "storage"), ("W8", 1, "lines"), ("W9", 1, "storage")]
     else:
-        plan = [("W1", 2, "lines"), ("W2", 2, "storage"), ("W2", 1, "lines"), ("W3", 1, "lines"), ("W4", 1, "lines"), ("W4", 2, "storage"), ("W5", 2, "lines"), ("W6", 2, "storage"), ("W6", 1, "lines"), ("W7", 2, "storage"), ("W7", 1, "lines"), ("W8", 2, "storage"), ("W8", 1, "lines")]
+        plan = [("W1", 2, "lines"), ("W2", 2, "storage"), ("W2", 1, "lines"), ("W3", 1, "lines"), ("W4", 1, "lines"), ("W4", 2, "storage"), ("W5", 2, "lines"), ("W6", 2, "storage"), ("W6", 1, "lines"), ("W7", 2, "storage"), ("W7", 1, "lines"), ("W8", 2, "storage"), ("W8", 1, "lines"), ("W9", 1, "lines"), ("W9", 2, "storage")]
     jobs, meta = [], {}
     for wname, bound, mode in plan:
         name = wname
